@@ -200,8 +200,11 @@ func close(a, b float64) bool {
 
 var dts = []int64{0, 1, 9999, 10000, 10001, 29000, 30000, 31000, 299000, 300000, 301000, 3000000}
 
+// gaps of days to a year (a server that is read rarely): 2^31-1 ms, 2^31 ms, 25, 50, 60 and 365 days
+var longDts = []int64{1<<31 - 1, 1 << 31, 25 * 86400000, 50 * 86400000, 1<<32 + 7, 60 * 86400000, 365 * 86400000}
+
 var rec = ev.New(prop, "histories",
-	"rapid-generated histories (<=60 observations) for the bitrate and the request-rate meter: spacing in {0,1ms,9.999s,10s,10.001s,29s,30s,31s,299s,300s,301s,3000s,uniform}, counter steps {0,+1,+10^6,+2^63,-1,reset to small,"+
+	"rapid-generated histories (<=60 observations) for the bitrate and the request-rate meter: spacing in {0,1ms,9.999s,10s,10.001s,29s,30s,31s,299s,300s,301s,3000s,uniform, now and then 24.8 days .. 1 year}, counter steps {0,+1,+10^6,+2^63,-1,reset to small,"+
 		"wrap past 2^64, to exactly 0}, the average read at drawn instants; oracle: window model from the statement (rate = signed increase since the window's previous sample / window length, cascade 10s->30s->300s, zero = no observation) "+
 		"plus model-independent invariants (finite, >=0, bounded by total growth); tolerance 1e-9 relative; non-trivial = the 30 s window sampled at least once or a backwards/stalled counter").
 	Require("w30", "w300", "backwards", "stall", "avg", "kbps", "krps")
@@ -212,7 +215,9 @@ func genCase(t *rapid.T) Case {
 	counter := rapid.SampledFrom([]uint64{0, 1, 1000, 1 << 40, 1<<64 - 5}).Draw(t, "c0")
 	for i := 0; i < n; i++ {
 		var o Obs
-		if rapid.IntRange(0, 3).Draw(t, "dtk") == 0 {
+		if k := rapid.IntRange(0, 19).Draw(t, "dtk"); k == 19 {
+			o.DtMs = rapid.SampledFrom(longDts).Draw(t, "dtlong")
+		} else if k < 5 {
 			o.DtMs = rapid.Int64Range(0, 400000).Draw(t, "dtu")
 		} else {
 			o.DtMs = rapid.SampledFrom(dts).Draw(t, "dt")
@@ -294,7 +299,7 @@ func TestHistories(t *testing.T) {
 
 // TestRefusedBeforeStart: the public API refuses rate reads before Start.
 func TestRefusedBeforeStart(t *testing.T) {
-	recR := ev.New(prop, "refused-before-start", "public API, both meters x 4 getters x {before Start, between Start and Close, after Close}: a read before Start is refused (panics), a read in between returns a finite non-negative value, a read after Close is refused or returns such a value; all non-trivial")
+	recR := ev.New(prop, "refused-before-start", "public API, both meters x 4 getters x {before Start, between Start and Close, after Close, after Close without Start}: a read of a meter that was never started is refused (panics), a read in between returns a finite non-negative value, a read after Close is refused or returns such a value; all non-trivial")
 	recR.Exhaustive()
 	type rc struct {
 		Kbps  bool   `json:"kbps"`
@@ -303,7 +308,7 @@ func TestRefusedBeforeStart(t *testing.T) {
 	}
 	for _, kb := range []bool{true, false} {
 		for g := 0; g < 4; g++ {
-			for _, phase := range []string{"before", "running", "closed"} {
+			for _, phase := range []string{"before", "running", "closed", "closed-unstarted"} {
 				c := rc{kb, g, phase}
 				err := func() error {
 					s := &src{v: 5}
@@ -318,7 +323,9 @@ func TestRefusedBeforeStart(t *testing.T) {
 						getters, start, cl = []func() float64{k.Rps10s, k.Rps30s, k.Rps300s, k.Average}, k.Start, k.Close
 					}
 					defer cl()
-					if phase != "before" {
+					if phase == "closed-unstarted" {
+						cl() // a meter that was never started stays un-started when it is closed
+					} else if phase != "before" {
 						if e := start(); e != nil {
 							return fmt.Errorf("Start: %v", e)
 						}
@@ -346,7 +353,7 @@ func TestRefusedBeforeStart(t *testing.T) {
 						return nil
 					}
 					if pe == nil {
-						return fmt.Errorf("getter %d returned %v %s; reading a rate of a meter that is not started must be refused", g, v, map[string]string{"before": "before Start", "closed": "after Close"}[phase])
+						return fmt.Errorf("getter %d returned %v %s; reading a rate of a meter that is not started must be refused", g, v, map[string]string{"before": "before Start", "closed-unstarted": "after a Close without any Start"}[phase])
 					}
 					return nil
 				}()
